@@ -103,10 +103,26 @@ def enumerated(tier, seed):
         out.append({"loader": "marginal", "path": path, "sizes": [2, 4, 4], "seed": seed + 4,
                     "bounds": [[0, 3], [0, 2], [0, 4]], "marginals": [{"kind": "poisson", "m": 2.0}, {"kind": "poisson", "m": 1.0},
                                                                       {"kind": "poisson", "m": 0.3}]})
+    # many samples, counts that are neither small nor round (the distribution is count / n_samples whatever n is)
+    for i, n in enumerate((150000, 250001, 65537)):
+        out.append({"loader": "marginal_sampling", "path": "class" if i % 2 else "dispatch_enum", "sizes": [2, 3], "seed": seed + 30 + i,
+                    "n_samples": n, "bounds": [[0, 3], [1, 2]], "marginals": [t(31 + i), t(41 + i)]})
+    # a joint function written in exact integer arithmetic on the degrees it is handed (wide box: 3**k exceeds 2**63)
+    for path in ("class", "dispatch_str"):
+        out.append({"loader": "function", "path": path, "sizes": [2, 3], "seed": seed + 6, "fkind": "intpow",
+                    "bounds": [[0, 45], [0, 3]]})
     # a large direct-mode box (3 x 64 degrees = 262144 joint degrees): still the exact normalised product
     out.append({"loader": "marginal", "path": "class", "sizes": [2, 3, 4], "seed": seed + 5,
                 "bounds": [[0, 64], [0, 64], [0, 64]], "marginals": [t(21), t(22), t(23)]})
     return out
+
+
+def intpow(jd):
+    """a joint function in exact integer arithmetic: 3**-(k1 + 2 k2 + ...) (unnormalised)"""
+    e = 0
+    for i, k in enumerate(jd):
+        e = e + (i + 1) * k
+    return 1 / 3 ** e
 
 
 def positive(seed, *idx):
@@ -148,7 +164,9 @@ def build(case):
             call("construct-earlier", JointDegreeFunction,
                  {JN.MOTIF_SIZES: list(case["sizes"]), JN.LOW_HIGH_DEGREE_BOUND: [tuple(b) for b in case["bounds"]],
                   JN.FP: lambda jd, s=case["earlier_fseed"]: positive(s, *[int(x) for x in jd])})
-        p[JN.FP] = lambda jd, s=case["fseed"]: positive(s, *[int(x) for x in jd])
+        p[JN.FP] = lambda jd, s=case.get("fseed"): positive(s, *[int(x) for x in jd])
+        if case.get("fkind") == "intpow":
+            p[JN.FP] = intpow
         p[JN.LOW_HIGH_DEGREE_BOUND] = [tuple(b) for b in case["bounds"]]
         cls, typ = JointDegreeFunction, JointDegreeType.JOINT_FUNCTION
     else:
@@ -168,7 +186,7 @@ def build(case):
         else:
             p[JN.JOINT_DEGREE_TYPE] = typ if case["path"] == "dispatch_enum" else typ.value
             obj = call("dispatch", JointDegreeDistribution.load_joint_degree, p)
-    if type(obj) is not cls:
+    if not isinstance(obj, cls):
         raise Violation("dispatch-class", f"{case['path']} built a {type(obj).__name__} for loader {ld}")
     return obj, p
 
@@ -225,7 +243,11 @@ def check(case):
         masses = list(want.values())
     elif ld == "function":
         box = [range(lo, hi + 1) for lo, hi in case["bounds"]]
-        want = {jd: positive(case["fseed"], *jd) for jd in itertools.product(*box)}
+        if case.get("fkind") == "intpow":
+            want = {jd: intpow(jd) for jd in itertools.product(*box)}
+            classes.add("integer_arithmetic_joint_function")
+        else:
+            want = {jd: positive(case["fseed"], *jd) for jd in itertools.product(*box)}
         if set(k for k, v in jdd.items() if v > 0) != set(want):
             raise Violation("function-support", f"support {sorted(jdd)} != whole degree box {case['bounds']} (inclusive)")
         compare(normalised(jdd), normalised(want), "function")
